@@ -78,8 +78,11 @@ def run(an: Analysis, rep):
     rep.run(r035, an, rep)
     rep.run(r036, an, rep)
     rep.run(r037, an, rep)
+    rep.run(r038, an, rep)
     from .common import SharedRules
     from . import c02, c04, c10
+    from . import c05
+    rep.run(c05.r053, an, SharedRules(rep, "R03.D", "docstring slot (shared with C05's R05.3): a function described with docstring None must not get its first string constant read as __doc__"))
     rep.run(c10.format_rules, an, SharedRules(rep, "R03.L", "line-table format constants (shared with C10's R10.*): 'each instruction carries the given line'"))
     rep.run(c02.jump_rules, an, SharedRules(rep, "R03.J", "jump operands are measured as CPython measures them (shared with C02's R02.3/R02.4): 'every jump lands on the first instruction of its target block'"))
     sh = SharedRules(rep, "R03.A", "signature encoding: co_varnames layout, counts and flags (shared with C04's R04.3/R04.4): 'signature ... as described'")
@@ -245,7 +248,18 @@ def eval_decision_tree(fn: FunctionInfo, env: dict):
 
 
 def find_size_fn(an: Analysis) -> FunctionInfo:
-    it, _ = an.interp("to_code")
+    """The operand-width function, by role: the one-parameter module function whose result is the fallback of `<width override> or f(operand)`."""
+    cands = {}
+    for g in an.closure("to_code"):
+        for n in ast.walk(g.node):
+            if isinstance(n, ast.BoolOp) and isinstance(n.op, ast.Or) and len(n.values) == 2 and isinstance(n.values[1], ast.Call) \
+                    and isinstance(n.values[1].func, ast.Name) and len(n.values[1].args) == 1 \
+                    and isinstance(n.values[0], ast.Attribute) and "override" in n.values[0].attr:
+                r = an.prog.resolve_global(g.module, n.values[1].func.id, g)
+                if r and r[0] == "func" and len(r[1].params) == 1:
+                    cands[r[1].qual] = r[1]
+    if len(cands) == 1:
+        return next(iter(cands.values()))
     best = None
     for g in an.closure("to_code"):
         if g.cls is None and len(g.params) == 1 and g.parent is None:
@@ -259,6 +273,26 @@ def find_size_fn(an: Analysis) -> FunctionInfo:
     return best
 
 
+_size_eval_cache = {}
+
+
+def eval_size(an: Analysis, sf: FunctionInfo, v: int):
+    """The operand-width function at one point: a decision tree of comparisons, or - when written as a bounded loop over a table of
+    limits - the finite-domain evaluator for pure scalar functions (module constants folded)."""
+    try:
+        return eval_decision_tree(sf, {sf.params[0]: v})
+    except FevalError:
+        pass
+    from sa.feval import PureEval
+    from .c02 import module_consts
+    key = id(sf.node)
+    if key not in _size_eval_cache:
+        consts = module_consts(an, sf.module.name, (3, 10))
+        fns = {n: f.node for n, f in sf.module.functions.items()}
+        _size_eval_cache[key] = PureEval(lambda name: fns.get(name), extra=consts)
+    return _size_eval_cache[key].call(sf.node, v)
+
+
 def r035(an, rep):
     sf = find_size_fn(an)
     p = sf.params[0]
@@ -269,7 +303,7 @@ def r035(an, rep):
     for v in pts:
         want = 4 if v < 0 else (1 if v <= 0xFF else 2 if v <= 0xFFFF else 3 if v <= 0xFFFFFF else 4)
         try:
-            got = eval_decision_tree(sf, {p: v})
+            got = eval_size(an, sf, v)
         except FevalError as ex:
             raise AnalysisError(f"{sf.qual}: not a threshold table: {ex}")
         if got != want:
@@ -313,7 +347,7 @@ def r035(an, rep):
         raise AnalysisError(f"{pf.qual}: shift not evaluable: {ex}")
     bad = []
     for v in [x for x in pts if x >= 0] + [0x1234, 0xABCDEF, 0x12345678]:
-        n = eval_decision_tree(sf, {p: v})
+        n = eval_size(an, sf, v)
         acc = 0
         units = []
         for i in (reversed(range(n)) if ok_order else range(n)):
@@ -444,7 +478,7 @@ def r037(an, rep):
         raise AnalysisError("encoder's Jump placeholder not found")
     try:
         ph = feval(disp[1].value, {})
-        ok = eval_decision_tree(sf, {sf.params[0]: ph}) == 1
+        ok = eval_size(an, sf, ph) == 1
     except Exception:
         ok, ph = False, "?"
     rep.add("R03.7", f"{disp[0].qual}::jump placeholder has minimal size", ok, loc(disp[0].module, disp[1]),
@@ -480,7 +514,7 @@ def r037(an, rep):
                     self.n.setdefault(key, f"subscript_{len(self.n)}")
                     return ast.copy_location(ast.Name(self.n[key], ast.Load()), n)
             guard = ast.fix_missing_locations(_Sub().visit(guard))
-            size = callable_for_feval(lambda v: eval_decision_tree(sf, {sf.params[0]: v}))
+            size = callable_for_feval(lambda v: eval_size(an, sf, v))
             leaves = sorted({norm_src(a) for a in ast.walk(guard) if isinstance(a, ast.Attribute)} |
                             {n.id for n in ast.walk(guard) if isinstance(n, ast.Name) and n.id != sf.name})
             leaves = [l for l in leaves if not any(m != l and m.startswith(l + ".") for m in leaves)]
@@ -546,3 +580,77 @@ def r037(an, rep):
     rep.add("R03.7", f"{g.qual}::offsets and emission use the same instruction size", same, loc(g.module, sizes[0]) if sizes else loc(g.module, g.node),
             f"{len(sizes)} size computations, all `{norm_src(sizes[0].value)}`" if same else
             f"the size of an instruction is computed differently at {[s.lineno for s in sizes]}: {sorted({norm_src(s.value) for s in sizes})} - offsets used for jumps and units emitted disagree")
+
+
+# ----------------------------------------------------------------------------- R03.8
+def r038(an, rep):
+    """Encoder mirror of R02.5: an instruction's line is keyed at the offset of its FIRST code unit (CPython's line table and
+    dis.findlinestarts attribute a line from the first EXTENDED_ARG prefix on), before any unit of the instruction is emitted."""
+    from .encode_model import inline_reaching, parent_map
+    rep.rule("R03.8", "the encoder keys an instruction's line at the offset of its first code unit", 1)
+    lm = an.prog.cls("code_data._line_mapping::LineMapping")
+    dict_fields = [f.name for f in lm.fields if an.tg.field_type(f)[0] == "dict"]
+    found = 0
+    for f in an.closure("to_code"):
+        if f.cls is lm or (f.cls is not None and f.cls.qual == lm.qual):
+            continue
+        pm = parent_map(f.module)
+        stores = [n for n in ast.walk(f.node) if isinstance(n, ast.Assign) and isinstance(n.targets[0], ast.Subscript)
+                  and isinstance(n.targets[0].value, ast.Attribute) and n.targets[0].value.attr in dict_fields]
+        if not stores:
+            continue
+        # the per-instruction loop: innermost loop containing the first store (in source order)
+        first = min(stores, key=lambda n: (n.lineno, n.col_offset))
+
+        def loops_of(node):
+            out = []
+            cur = node
+            while id(cur) in pm and pm[id(cur)] is not f.node:
+                cur = pm[id(cur)]
+                if isinstance(cur, (ast.For, ast.While)):
+                    out.append(cur)
+            return out
+        lps = loops_of(first)
+        if not lps:
+            raise AnalysisError(f"{f.qual}: the store of an instruction's line is not inside a loop over instructions")
+        loop = lps[0]
+        # byte list: the list whose length the keys measure / that the unit loop appends to
+        applists = {c.func.value.id for c in ast.walk(loop) if isinstance(c, ast.Call) and isinstance(c.func, ast.Attribute) and c.func.attr in ("append", "extend")
+                    and isinstance(c.func.value, ast.Name)}
+        keys = []
+        for st in stores:
+            if loops_of(st)[:1] != [loop]:
+                continue  # a store in a deeper loop (one per unit) is judged by R01.7
+            k = inline_reaching(loop, st, st.targets[0].slice)
+            keys.append((st, k))
+        if not keys:
+            raise AnalysisError(f"{f.qual}: no per-instruction line store")
+        for st, k in keys:
+            found += 1
+            lens = [x for x in ast.walk(k) if isinstance(x, ast.Call) and isinstance(x.func, ast.Name) and x.func.id == "len" and x.args
+                    and isinstance(x.args[0], ast.Name) and x.args[0].id in applists]
+            if not lens:
+                raise AnalysisError(f"{f.qual}: key `{norm_src(k)}` of the line store is not measured on the emitted bytes")
+            exact = isinstance(k, ast.Call) and k is not None and norm_src(k) == norm_src(lens[0])
+            B = lens[0].args[0].id
+            # nothing emitted yet in this iteration: no append to B in an earlier statement of the loop body
+            idx = next(i for i, s in enumerate(loop.body) if any(x is st for x in ast.walk(s)))
+            # where was the key's len() taken?  at the assignment that reaches the store, or at the store itself
+            key_stmt_idx = idx
+            if isinstance(st.targets[0].slice, ast.Name):
+                for j in range(idx - 1, -1, -1):
+                    s = loop.body[j]
+                    if isinstance(s, ast.Assign) and len(s.targets) == 1 and isinstance(s.targets[0], ast.Name) and s.targets[0].id == st.targets[0].slice.id:
+                        key_stmt_idx = j
+                        break
+            emitted_before = any(isinstance(c, ast.Call) and isinstance(c.func, ast.Attribute) and c.func.attr in ("append", "extend") and isinstance(c.func.value, ast.Name)
+                                 and c.func.value.id == B for s in loop.body[:key_stmt_idx] for c in ast.walk(s))
+            ok = exact and not emitted_before
+            fld = st.targets[0].value.attr
+            rep.add("R03.8", f"{f.qual}::{fld} keyed by the first code unit", ok, loc(f.module, st),
+                    f"key `{norm_src(k)}` is the length of the bytes emitted before this instruction: the offset of its first unit" if ok else
+                    (f"key `{norm_src(k)}` is not the offset of the instruction's first code unit (`len({B})` before anything is emitted for it): with EXTENDED_ARG prefixes the line "
+                     f"starts at the wrong unit - the prefixes stay on the previous line, a line that begins with a wide instruction loses its line event" if not emitted_before or not exact else
+                     f"`len({B})` is taken after units of this instruction were already emitted"))
+    if not found:
+        raise AnalysisError("no store of an instruction's line found in the encoder")
